@@ -179,8 +179,14 @@ func check(t interface{ Fatalf(string, ...any) }, sc Scenario) {
 	}
 }
 
-func TestC20(t *testing.T) {
-	rapid.Check(t, func(t *rapid.T) { check(t, gen(t)) })
+func propC20(t *rapid.T) { check(t, gen(t)) }
+
+func TestC20(t *testing.T) { rapid.Check(t, propC20) }
+
+func FuzzC20(f *testing.F) {
+	f.Add([]byte{})
+	f.Add([]byte("\x01\x02\x03\x04\x05\x06\x07\x08"))
+	f.Fuzz(rapid.MakeFuzz(propC20))
 }
 
 // TestC20Each covers every N with every family deterministically (no N can be missed by chance).
